@@ -278,7 +278,7 @@ def _w(p, actors, ti):
 
 
 def directed():
-    """(name, workload, configurations or None for all). The first six are the minimal witnesses of the open known findings."""
+    """(name, workload, configurations or None for all). All but the last two are the minimal witnesses of the open known findings."""
     out = []
     # cpu/optim:TI, exec suspended from another host: the work done before the suspension is lost (5.2 instead of 4.2)
     out.append(("ti-suspend-loses-work", _w(_two_hosts(), [("v", "a", [["E", 0, "a", 2e9, -1.0, 1.0]]), ("ctl", "b", [["AZ", "v", 1.0, 2.2]])], True), None))
@@ -297,6 +297,11 @@ def directed():
     # comm suspended over [0.5, 0.8] while it pays its latency, another comm on the same link
     out.append(("comm-suspended-during-latency", _w(_two_hosts(lat=0.1, bw=1e5), [("v", "a", [["G", [["C", 0, "a", "b", 1e5], ["C", 1, "a", "b", 2e5]],
                                                                                                [["Z", 0, 0.5, 0.3]]]])], True), None))
+    # cpu/optim:Lazy: update_priority(1) on an exec of priority 1 at t=1 removes its completion from the heap: it never completes
+    out.append(("lazy-same-priority", _w(_two_hosts(), [("v", "b", [["G", [["E", 0, "a", 2e9, -1.0, 1.0]], [["U", 0, 1.0, 1.0]]]])], True), None))
+    # Lazy: exec suspended by its owner at 1, the owner suspended over [1.5, 2] by another actor (which resumes the exec), second resume() at 3
+    out.append(("lazy-double-resume", _w(_two_hosts(), [("v", "b", [["G", [["E", 0, "a", 4e9, -1.0, 1.0]], [["Z", 0, 1.0, 2.0]]]]), ("ctl", "b", [["AZ", "v", 1.5, 0.5]])], False),
+                None))
     # expected to agree: the same dynamic features where every configuration handles them
     prof = {"period": 5.0, "points": [(0.0, 1.0), (1.5, 0.5), (2.5, 0.25), (4.0, 1.0)]}
     bpr = {"period": 6.0, "points": [(0.0, 1e6), (2.0, 5e5), (3.0, 2e6)]}
